@@ -2,6 +2,8 @@ import Batteries.Tactic.Alias
 import GenlmModel.Proofs.ChainRule
 import GenlmModel.Proofs.Prio
 import GenlmModel.Proofs.IncCky
+import GenlmModel.Proofs.EarleyQ
+import GenlmModel.Proofs.EarleyNext
 /-! # C04 — grammar language models are the exact left-to-right factorisation -/
 namespace Genlm.Props.C04
 alias normalize_sums_to_one := Genlm.normalize_sums_to_one
@@ -14,4 +16,8 @@ parser assigns to the context extended by that token — for EVERY grammar and c
 alias cky_outside_is_inside_of_extension := Genlm.outside_is_inside_of_extension
 alias cky_next_token_weight_is_derivation_sum := Genlm.incCky_pnext_is_WN
 alias cky_next_token_zero_outside_vocabulary := Genlm.incCkyPNext_notin
+/-- Earley back end (model of `next_token_weights`/`_helper`): the un-normalised next-token weight equals the parser's
+weight of the extended context, for the parser with its priority-queue agenda -/
+alias earley_next_token_is_extension := Genlm.earleyQ_pnext
+alias earley_next_token_is_derivation_sum := Genlm.earley_pnext_is_WN
 end Genlm.Props.C04
